@@ -50,7 +50,8 @@ def replay(path):
     os.makedirs(wd)
     print("replay of %s: property %s, tier %s, seed %s, %d failure(s) recorded" % (
         path, rp["property"], rp["tier"], rp["seed"], rp["n_failures"]))
-    big = [f for f in rp["failures"] if isinstance(f.get("record"), dict) and str(f["record"].get("op", "")).startswith("big_")]
+    big = [f for f in rp["failures"] if isinstance(f.get("record"), dict)
+           and (str(f["record"].get("op", "")).startswith("big_") or f["record"].get("op") in ("scale", "time_ops"))]
     if big:
         # large-magnitude records: Apalache re-decides the closed-form relations of each record on its own
         recs = []
